@@ -8,7 +8,7 @@ from ..engine import Fail, Stratum
 from .. import exact as X, bridge as B, gen, genbody as GB, admit as A
 
 ID = "C03"
-USE_WITNESS = True
+WITNESS = ("eps", "round")
 RULE = (
     "polygon-polygon (coplanar: equal, shared vertex, shared full/partial edge, translated copy, nested, "
     "overlapping, disjoint; crossing planes: through interiors, edge lying in the other plane, vertex touch, "
